@@ -250,6 +250,28 @@ func buildWorld(nodes []Node) error {
 	return unix.UtimesNanoAt(unix.AT_FDCWD, "/w", ts, 0)
 }
 
+var arenaBaseline = map[string]bool{"w": true, "proc": true, "dev": true, "usr": true, "lib": true, "lib64": true, "bin": true,
+	"sbin": true, "etc": true, "tmp": true, "opt": true, "root": true}
+
+// strayRootEntries lists (and removes) anything that appeared in the arena's root directory or /tmp:
+// objects a jailed operation can only have created by running outside its jail.
+func strayRootEntries() string {
+	var out []string
+	for _, d := range []string{"/", "/tmp"} {
+		ents, _ := os.ReadDir(d)
+		for _, e := range ents {
+			if d == "/" && arenaBaseline[e.Name()] {
+				continue
+			}
+			p := filepath.Join(d, e.Name())
+			out = append(out, p)
+			_ = os.RemoveAll(p)
+		}
+	}
+	sort.Strings(out)
+	return strings.Join(out, ",")
+}
+
 func modeFromPerm(p uint32) os.FileMode {
 	m := os.FileMode(p & 0o777)
 	if p&0o4000 != 0 {
@@ -433,6 +455,12 @@ func runFsJob(j *Job, res *JobResult) {
 		return
 	}
 	unix.Umask(0o022)
+	for _, a := range j.Args {
+		if a == "settle" {
+			time.Sleep(150 * time.Millisecond)
+		}
+	}
+	res.Extra = strayRootEntries()
 	after, err := scanWorld("/w")
 	if err != nil {
 		res.Out, res.Err = "setup", "scan after: "+err.Error()
